@@ -213,6 +213,20 @@ def table_ops(rng, nrandom):
         n = 1 + rng.below(3)
         strings.add("".join(rng.choice(alpha) for _ in range(n)))
     strings = sorted(strings)
+    # raw bytes (not necessarily UTF-8): every one-byte string; every code with one bit of one byte flipped (a lookup that
+    # masks, folds or truncates a byte maps these onto a real code); a code followed or preceded by a continuation or lead
+    # byte; the overlong two-byte encoding of each of its letters
+    raws = set(bytes([b]) for b in range(256))
+    for c in vec.ALL_CODES:
+        cb = c.encode()
+        for i in range(len(cb)):
+            for bit in range(8):
+                raws.add(cb[:i] + bytes([cb[i] ^ (1 << bit)]) + cb[i + 1:])
+            raws.add(cb[:i] + bytes([0xC0 | (cb[i] >> 6), 0x80 | (cb[i] & 0x3F)]) + cb[i + 1:])
+        for x in (b"\x80", b"\xbf", b"\xc2", b"\xff"):
+            raws.add(cb + x)
+            raws.add(x + cb)
+    raws = sorted(r for r in raws if r not in set(t.encode("utf-8", "surrogateescape") for t in strings))
     FAR = far_ints()
     for fam, ms in (("T3", vec.V3), ("T2", vec.V2)):
         for m in ms:
@@ -220,6 +234,8 @@ def table_ops(rng, nrandom):
                 ops.append("%s %s val %d" % (fam, m[0], v))
             for s in strings:
                 ops.append("%s %s get %s" % (fam, m[0], hx(s)))
+            for r in raws:
+                ops.append("%s %s get %s" % (fam, m[0], hx(r)))
     for v in list(range(-3, 11)) + FAR:
         ops.append("TV str %d" % v)
     for s in strings + ["CVSS:3.0", "CVSS:3.1", "CVSS:3.2", "CVSS:", "cvss:3.1", "CVSS:3.1:", ":3.1", "3.0", "3.1", "CVSS:2.0", "CVSS:3.10", "CVSS:4.0",
@@ -388,6 +404,12 @@ def byte_edits(valid, rng, step=1):
     for k in range(0, len(v) + 1, step):
         r = rng.choice(RAW)
         yield v[:k] + r + v[k:]
+        if k < len(v):
+            # the same text with one bit of one byte flipped: bit 7 (a byte outside ASCII that a masked or folded lookup
+            # maps back onto the letter) and one of the others
+            yield v[:k] + bytes([v[k] ^ 0x80]) + v[k + 1:]
+            if rng.chance(1, 2):
+                yield v[:k] + bytes([v[k] ^ (1 << rng.below(7))]) + v[k + 1:]
         if k < len(v) and rng.chance(1, 3):
             yield v[:k] + rng.choice(RAW) + v[k + 1:]
     for r in RAW:
